@@ -36,7 +36,8 @@ TimeStr(t) ==
     [] t.s = 1600000000 -> "2020-09-13T05:26:40-07:00"
     [] OTHER -> "2023-11-14T22:13:21Z"
 DurStr(d) == CASE d.s = 5 -> "PT5S" [] d.s = 0 - 5 -> "-PT5S" [] d.s = 3725 -> "PT1H2M5S" [] d.s = 86400 -> "P1D" [] d.s = 0 - 259200 -> "-P3D"
-               [] d.s = 90000 -> "P1DT1H" [] OTHER -> "PT0S"
+               [] d.s = 90000 -> "P1DT1H" [] d.s = 2419200 -> "P28D" [] d.s = 0 - 2505600 -> "-P29D" [] d.s = 29376000 -> "P340D"
+               [] d.s = 34578000 -> "P400DT5H" [] OTHER -> "PT0S"
 
 (***************************************************************************)
 (* Presentation: st = [item |-> "min" | "arr", items |-> "arr" | "min",    *)
